@@ -16,7 +16,24 @@ Two cooperating parts over one bounded-exhaustive set of generated functions:
      the gcc -O0 twin's; a gcc-compiled long double computation must still be right after the calls.
 
 Generator: expression forms x result type {int,long,float,double,long double,int*,struct S (regs),struct L (memory),
-void} x consumption context, indexed by size (number of composite nodes).  See `rule` in the evidence.
+void} x consumption context, indexed by size (number of composite nodes).  See `rule` in the evidence.  Operands whose
+value is dropped or only tested range over every type: the left operand of the comma operator {all 8 types, void}, the
+condition of ?: {the int flag gc, and an operand of every scalar type incl. long double and pointer}, ?: with exactly one
+void arm and an arm of every type (result void), the void leaf `(void)0` in every void position.  `.member` is applied to
+every struct-valued form (lvalue context: gen_addr): comma with a left operand of every type, ?: with struct arms and a
+condition of every type, struct assignment, calls returning structs in registers / memory, and statement expressions when
+the compiler under test accepts `({ s; }).m` (capability probe in run(); the pinned tree rejects it - reported once as
+`C20|member-of-stmtexpr|cc-fail`).
+
+Conversions between all 13 arithmetic types {_Bool, char, signed/unsigned char, short, unsigned short, int, unsigned, long,
+unsigned long, float, double, long double} (156 ordered pairs x 3 contexts: initializer, discarded, operand of pending
+integer and long double additions) are executed once per operand VALUE of a class-boundary grid of the source type (28
+integer values on both sides of 0, 2^7, 2^8, 2^15, 2^16, 2^31, 2^32, 2^63; 39 floating values on both sides of the same
+boundaries and 2^64, negative, truncating to zero, +-inf, +-NaN), the x87 tag word, TOP and %rsp being read after every value,
+so that each path inside a multi-instruction conversion sequence (`;`-separated instructions with jumps to local numeric
+labels on one line, which the model follows like any other code) is also bound to the machine.  The result is compared
+with the gcc twin only where C11 defines the conversion; residue is judged for every value (`(ub-operand)` marks anomalies
+that only operands with an undefined conversion show).
 
 Signatures name the *simplest* enumerated case that shows the anomaly (root-cause attribution): the consumption
 context with a plain variable (`C20|ctx=exprstmt|ty=e|...`), else the smallest sub-expression / its form with plain
@@ -24,7 +41,9 @@ operands in the neutral context `T v = E` (`C20|form=assign.e(v)|...`); jumps ou
 class per jump kind and leaked resource (`C20|jump-out-of-stmtexpr|break|leaks=rsp`).
 Anomaly tokens: `S:` from the model (x87-underflow, x87-at-return=+k, x87-not-single-valued, rsp-not-single-valued(-k),
 rsp-at-return, x87-at-statement-boundary, rsp-differs-between-statement-boundaries), `D:` measured on the machine
-(x87-per-call=+k, x87-top-moved=k, rsp-drift-in-loop=-k/iteration, result-differs-from-gcc-twin, crash-signalN).
+(x87-per-call=+k, x87-top-moved=k, rsp-drift-in-loop=-k/iteration, result-differs-from-gcc-twin, crash-signalN); for
+conversions `C20|conv=<from>><to>|...` with `D:<anomaly>@<value classes showing it>`, classes neg, lt2^31, ge2^31, ge2^32,
+ge2^63, ge2^64, inf, nan.
 
 `python3 checks/c20.py replay <dir> <chibicc>` re-runs one case from a replay directory (exit 1 = reproduces).
 """
@@ -35,7 +54,7 @@ if __name__ == "__main__":
 from vlib import core, twin
 
 LEVEL = "model_checking"
-BUDGET = {"quick": 600, "thorough": 3600}
+BUDGET = {"quick": 600, "thorough": 7200}
 BATCH = 1500
 
 HARNESS = os.path.join(core.VERIF, "harness")
@@ -60,6 +79,8 @@ OPNAME = {"+": "add", "-": "sub", "*": "mul", "/": "div", "%": "mod", "&": "and"
 LEAF_RHS = ("/", "%", "<<", ">>")      # right operand restricted to a read-only leaf (never 0, shift count in range)
 REP_ARITH = ("+",)                      # representative operators used as *parents* at size 3
 REP_CMP = ("<",)
+REP_DROP = "ie"                         # size 3: types of dropped operands (comma lhs, non-void arm of a one-void-arm ?:)
+REP_COND = "e"                          # size 3: types of the condition operand of a typed ?:
 SAFE_DEREF = ("v", "assign", "cond", "comma", "call", "stmtexpr", "addr", "complit", "elvis")
 UNSAFE_PTR = ("padd", "psub", "asg.p", "inc.p", "dec.p", "cast.l>p")      # pointer may leave gi[]: never dereferenced
 
@@ -73,12 +94,16 @@ class Gen:
     """exprs(T, n, idx, reps) -> list of (text, desc): all expressions of type T with exactly n composite nodes;
     idx = pre-order index of the root among the composite nodes of the whole expression (selects lvalue slots)."""
 
-    def __init__(self):
+    def __init__(self, stmtexpr_member_ok=False):
         self.memo = {}
+        self.stmtexpr_member_ok = stmtexpr_member_ok
 
     def leaf(self, T, pos):
         if T == "v":
-            return []
+            return [("((void)0)", "v")]
+        if pos == 2:
+            # condition operand of a typed ?: - slot [6] is zero / null, slot [7] is not: the driver's gc selects the arm
+            return [("%s[6 + gc]" % GV[T], "v")]
         return [("%s[%d]" % (GV[T], 2 + pos), "v")]
 
     def sub(self, T, n, idx, pos, reps):
@@ -97,13 +122,14 @@ class Gen:
             return out
         m = n - 1
         rp = reps and n >= 3           # restrict parent operators to representatives
+        rq = reps                      # inside size-3 trees: representative operand types for the typed ?: / comma / one-void-arm forms
         lv = LVSLOT[idx]
         A = lambda U, k=m, pos=0, i=idx + 1: self.sub(U, k, i, pos, reps)
 
         def un(fmt, name, U):
             for s, d in A(U):
-                if name.startswith("member.") and "stmtexpr." in d:
-                    continue        # chibicc rejects member access on a statement expression ("not an lvalue")
+                if name.startswith("member.") and not self.stmtexpr_member_ok and addr_spine_is_stmtexpr(d):
+                    continue        # chibicc rejects member access on a statement expression ("not an lvalue"): see run()
                 out.append((fmt % s, "%s(%s)" % (name, d)))
 
         def bi(fmt, name, U1, U2, leaf_rhs=False):
@@ -118,6 +144,17 @@ class Gen:
                         if (name.endswith(".p") or name == "ptrdiff") and (far_pointer(d1) or far_pointer(d2)):
                             continue        # comparing / subtracting pointers that may have left the object is undefined
                         out.append((fmt % (s1, s2), "%s(%s,%s)" % (name, d1, d2)))
+
+        def tri(fmt, name, U, T1, T2, Us=None):
+            for c in range(m, -1, -1):
+                for a in range(m - c, -1, -1):
+                    b = m - c - a
+                    for (s0, d0) in self.sub(U, c, idx + 1, 2, reps):
+                        for (s1, d1) in self.sub(T1, a, idx + 1 + c, 0, reps):
+                            for (s2, d2) in self.sub(T2, b, idx + 1 + c + a, 1, reps):
+                                if ("bf" in d0) + ("bf" in d1) + ("bf" in d2) > 1:
+                                    continue
+                                out.append((fmt % (s0, s1, s2), "%s(%s,%s,%s)" % (name, d0, d1, d2)))
 
         if T in ARITH:
             un("(-%s)", "neg." + T, T)
@@ -209,20 +246,40 @@ class Gen:
         if m == 0:
             out.append(("f%s()" % T, "call.f" + T))
         if T == "v":
-            for U in ALLT:
+            for U in ALLT + "v":
                 un("((void)%s)", "cast.%s>v" % U, U)
-        # ?: , comma, statement expression for every type
-        if T == "v":
-            for a in range(m - 1, 0, -1):
-                for (s1, d1) in self.sub(T, a, idx + 1, 0, reps):
-                    for (s2, d2) in self.sub(T, m - a, idx + 1 + a, 1, reps):
-                        out.append(("(gc ? %s : %s)" % (s1, s2), "cond.v(%s,%s)" % (d1, d2)))
-        else:
-            bi("(gc ? %s : %s)", "cond." + T, T, T)
+            # ?: with exactly one void arm (accepted by gcc and chibicc; the result is void, the other arm's value is dropped)
+            for U in (REP_COND if rq else ALLT):
+                bi("(gc ? %s : %s)", "condmix.v" + U, "v", U)
+                bi("(gc ? %s : %s)", "condmix.%sv" % U, U, "v")
+        # ?: for every type: condition `gc` (plain int flag) and a condition operand of every scalar type
+        bi("(gc ? %s : %s)", "cond." + T, T, T)
+        for U in (REP_COND if rq else SCALAR):
+            tri("(%s ? %s : %s)", "cond.%s?%s" % (U, T), U, T, T)
+        # comma with a (discarded) left operand of every type, void included; this is also the lvalue form `(x, s).m`
+        for U in (REP_DROP if rq else ALLT + "v"):
+            bi("(%s, %s)", "comma.%s>%s" % (U, T), U, T)
         for s, d in A(T):
-            out.append(("(gi[2], %s)" % s, "comma.%s(%s)" % (T, d)))
             out.append(("({ %s; })" % s, "stmtexpr.%s(%s)" % (T, d)))
         return out
+
+
+def addr_spine_is_stmtexpr(d):
+    """does generating the *address* of the (struct-valued) expression `d` reach a statement expression?  gen_addr walks
+    through the right operands of comma expressions; everything else is evaluated as a value."""
+    while d.startswith("comma."):
+        # last top-level argument
+        depth = 0
+        cut = None
+        for i, ch in enumerate(d):
+            if ch == "(":
+                depth += 1
+            elif ch == ")":
+                depth -= 1
+            elif ch == "," and depth == 1:
+                cut = i
+        d = d[cut + 1:-1]
+    return d.startswith("stmtexpr.")
 
 
 def zero_of(T):
@@ -335,9 +392,127 @@ def alloca_cases():
     return out
 
 
-def enumerate_cases(tier):
+# conversions between all arithmetic classes, executed on a grid of operand VALUES ---------------------------------
+# (letter, C type, integer width or None, signed)
+CONV_TYPES = [("b", "_Bool", 1, False), ("c", "char", 8, True), ("sc", "signed char", 8, True), ("uc", "unsigned char", 8, False),
+              ("s", "short", 16, True), ("us", "unsigned short", 16, False), ("i", "int", 32, True), ("u", "unsigned", 32, False),
+              ("l", "long", 64, True), ("ul", "unsigned long", 64, False), ("f", "float", None, True), ("d", "double", None, True),
+              ("e", "long double", None, True)]
+CONV_BY = {t[0]: t for t in CONV_TYPES}
+FP_MANT = {"f": 24, "d": 53, "e": 64}
+# integer grid (mathematical values; stored in every typed table modulo the width): both sides of 0, 2^7, 2^8, 2^15, 2^16,
+# 2^31, 2^32, 2^63.  Index 0 is the default operand of the N-repetition and loop measurements.
+IGRID = [3, 0, 1, -1, 127, 128, 255, 256, 32767, 32768, 65535, 65536, (1 << 31) - 1, 1 << 31, (1 << 32) - 1, 1 << 32,
+         (1 << 53) + 1, (1 << 63) - 1, 1 << 63, (1 << 63) + (1 << 40), (1 << 64) - 2, -128, -129, -32768, -32769,
+         -(1 << 31), -(1 << 31) - 1, -(1 << 63)]
+# floating grid (exact rationals, "inf"/"nan" strings): both sides of every integer class boundary, negative values,
+# values that truncate to zero, infinities and NaNs
+from fractions import Fraction as _Fr
+FGRID = [_Fr(3, 2), _Fr(0), "-0", _Fr(3, 4), _Fr(-3, 4), _Fr(-3, 2), _Fr(255, 2), _Fr(257, 2), _Fr(511, 2), _Fr(513, 2),
+         _Fr(65535, 2), _Fr(65537, 2), _Fr(131071, 2), _Fr(131073, 2), _Fr((1 << 31) - 128), _Fr((1 << 32) - 1, 2), _Fr(1 << 31),
+         _Fr((1 << 32) - 256), _Fr((1 << 33) - 1, 2), _Fr(1 << 32), _Fr((1 << 63) - (1 << 39)), _Fr((1 << 63) - 1), _Fr(1 << 63),
+         _Fr(12 * 10 ** 18), _Fr((1 << 64) - (1 << 40)), _Fr((1 << 64) - 1), _Fr(1 << 64), _Fr(10 ** 30), _Fr(-129), _Fr(-32769),
+         _Fr(-(1 << 31)), _Fr(-(1 << 31) - 1), _Fr(-(1 << 63)), _Fr(-(1 << 63) - (1 << 12)), _Fr(-10 ** 30), "inf", "-inf", "nan", "-nan"]
+VAL_CLASSES = ["neg", "lt2^31", "ge2^31", "ge2^32", "ge2^63", "ge2^64", "inf", "nan"]
+
+
+def _rne(x, p):
+    """round the rational x to p significant bits, ties to even (exponent range is not a concern for the grid)"""
+    if x == 0:
+        return x
+    sgn = -1 if x < 0 else 1
+    x = abs(x)
+    e = x.numerator.bit_length() - x.denominator.bit_length()
+    if _Fr(2) ** e > x:
+        e -= 1
+    # 2^e <= x < 2^(e+1): scale so that the integer part has p bits
+    sc = _Fr(2) ** (p - 1 - e)
+    y = x * sc
+    n = y.numerator // y.denominator
+    r = y - n
+    if r > _Fr(1, 2) or (r == _Fr(1, 2) and n % 2):
+        n += 1
+    return sgn * _Fr(n) / sc
+
+
+def grid_value(f, j):
+    """the operand value the table of type f holds at index j: a Fraction (integers too), or 'inf' '-inf' 'nan' '-0'"""
+    name, cty, width, signed = CONV_BY[f]
+    if width is None:
+        v = FGRID[j]
+        if isinstance(v, str):
+            return "nan" if "nan" in v else v
+        return _rne(v, FP_MANT[f])
+    v = IGRID[j]
+    if width == 1:
+        return _Fr(1 if v else 0)
+    v &= (1 << width) - 1
+    if signed and v >> (width - 1):
+        v -= 1 << width
+    return _Fr(v)
+
+
+def value_class(v):
+    if v == "nan":
+        return "nan"
+    if v in ("inf", "-inf"):
+        return "inf"
+    if v == "-0":
+        return "lt2^31"
+    if v < 0:
+        return "neg"
+    for k, nm in ((64, "ge2^64"), (63, "ge2^63"), (32, "ge2^32"), (31, "ge2^31")):
+        if v >= (1 << k):
+            return nm
+    return "lt2^31"
+
+
+def conv_defined(f, t, v):
+    """does C11 define the result of converting the value v of type f to type t (6.3.1.2-6.3.1.5)?  Out-of-range
+    floating -> integer is undefined, out-of-range integer -> signed integer is implementation-defined: both unjudged."""
+    name, cty, width, signed = CONV_BY[t]
+    if width == 1 or width is None:
+        return True                     # -> _Bool: always; -> floating: every grid value is inside the range of float
+    if isinstance(v, str):
+        return v == "-0"
+    tv = int(v)                         # truncation toward zero (int() of a Fraction truncates)
+    lo, hi = (-(1 << (width - 1)), (1 << (width - 1)) - 1) if signed else (0, (1 << width) - 1)
+    if CONV_BY[f][2] is None:
+        return lo <= tv <= hi
+    return lo <= tv <= hi or not signed
+
+
+def conv_grid_kind(key):
+    """0: not a conversion case; 1: integer operand grid; 2: floating operand grid"""
+    if not key.startswith("conv/"):
+        return 0
+    f = key.split("/")[2].split(">")[0]
+    return 2 if CONV_BY[f][2] is None else 1
+
+
+def conv_cases():
+    out = []
+    forms = [("init", "{ %(T)s v = (%(T)s)cv%(f)s[gv]; cr%(t)s = v; }"),
+             ("exprstmt", "(%(T)s)cv%(f)s[gv];"),
+             # evaluated while a temporary is pushed / a long double operand is on the x87 stack, whatever the operand order
+             ("pending", "rl = ((%(T)s)cv%(f)s[gv] != 0) + gl[3]; rl += gl[3] + ((%(T)s)cv%(f)s[gv] != 0); "
+                         "re = ge[3] + ((%(T)s)cv%(f)s[gv] != 0); re += ((%(T)s)cv%(f)s[gv] != 0) + ge[3];")]
+    for cn, stmt in forms:
+        for f, fty, fw, fs in CONV_TYPES:
+            for t, tty, tw, ts in CONV_TYPES:
+                if f == t:
+                    continue
+                body = stmt % {"T": tty, "f": f, "t": t}
+
+                def build(F, body=body):
+                    return (LOOP % {"F": "c" + F, "BODY": body}, [("c" + F, False)])
+                out.append(("conv/%s/%s>%s" % (cn, f, t), "i", "conv", "%s>%s" % (f, t), build))
+    return out
+
+
+def enumerate_cases(tier, stmtexpr_member_ok=False):
     """-> list of dict(id, ctx, T, desc, size, build) in deterministic simplest-first order."""
-    g = Gen()
+    g = Gen(stmtexpr_member_ok)
     cases = []
     seen = set()
 
@@ -354,9 +529,7 @@ def enumerate_cases(tier):
     for size in range(0, max_init + 1):
         for T in ALLT + "v":
             if size == 0:
-                if T == "v":
-                    continue
-                ex = [("%s[2]" % GV[T], "v")] + ([(CONST[T], "c")] if T in CONST else [])
+                ex = g.leaf(T, 0) + ([(CONST[T], "c")] if T in CONST else [])
             else:
                 ex = g.exprs(T, size, 0, reps=(size >= 3))
             for cn in CTX_ORDER:
@@ -367,10 +540,10 @@ def enumerate_cases(tier):
                 if size > max_all_ctx and cn == "exprstmt" and T != "v" and size >= 3:
                     continue
                 for text, desc in ex:
-                    if cn == "operandl" and T in "SL" and "stmtexpr." in desc:
-                        continue
+                    if cn == "operandl" and T in "SL" and not stmtexpr_member_ok and addr_spine_is_stmtexpr(desc):
+                        continue        # the context applies `.member` to the expression
                     add(cn, T, size, text, desc)
-    for cid, T, cn, desc, build in jump_cases() + alloca_cases():
+    for cid, T, cn, desc, build in jump_cases() + alloca_cases() + conv_cases():
         cases.append({"id": cid, "ctx": cn, "T": T, "desc": desc, "size": 2, "E": None, "build": build})
     return cases
 
@@ -394,7 +567,7 @@ PLAIN = set("mov movabs movzx movzb movzbl movzbw movzwl movzbq movzwq movsbl mo
             "cltq cdqe cwde cwtl and or xor not neg shl shr sar sal rol ror cmp test inc dec nop xchg cmpxchg xadd stosb stosq "
             "movsb cvtsi2ss cvtsi2sd cvtsi2ssl cvtsi2ssq cvtsi2sdl cvtsi2sdq cvttss2si cvttss2sil cvttss2siq cvttsd2si "
             "cvttsd2sil cvttsd2siq cvtss2sd cvtsd2ss ucomiss ucomisd comiss comisd xorps xorpd pxor andps andpd orps orpd "
-            "addss addsd subss subsd mulss mulsd divss divsd sqrtss sqrtsd bswap bt".split())
+            "addss addsd subss subsd mulss mulsd divss divsd sqrtss sqrtsd bswap bt btc bts btr".split())
 PREFIX = set("lock rep repe repne repz repnz".split())
 JCC = set("je jne jz jnz jl jle jg jge jb jbe ja jae js jns jp jnp jo jno jc jnc jnae jnb jnbe jna jnge jnl jng jnle".split())
 REG64 = {}
@@ -524,6 +697,7 @@ class FnModel:
         self.alloca_sites = 0
         self.has_backedge = False
         self.underflow = False
+        self.local_labels = 0
 
     def fail(self, why):
         if self.unmodelled is None:
@@ -541,6 +715,7 @@ class FnModel:
                     numeric.setdefault(l, []).append(i)
                 else:
                     self.labpos[l] = i
+        self.local_labels = sum(len(v) for v in numeric.values())
         self.addr_taken = set()
         for x in ins:
             if canon_mn(x.mn) == "lea" and x.ops:
@@ -846,6 +1021,11 @@ def model_file(asm_text, ret_ld, callee_ld):
     """Model-check every function of one assembly file.  ret_ld: {function: returns long double} for the functions to
     check; callee_ld: {symbol: returns long double} for everything callable."""
     funcs, quad_refs = parse_asm(asm_text)
+    # vacuity guard: every local numeric label written in the text (also inside `;`-joined instruction strings) is a node
+    n_text = len(re.findall(r"(?:^|;)[ \t]*\d+:", asm_text, re.M))
+    n_parsed = sum(1 for insns in funcs.values() for x in insns for l in x.labels if l.isdigit())
+    if n_parsed < n_text:
+        raise core.HarnessError("assembly parser lost local numeric labels: %d in the text, %d parsed" % (n_text, n_parsed))
     res = {}
     for name, insns in funcs.items():
         if name not in ret_ld:
@@ -875,6 +1055,19 @@ def unit_prelude():
     return open(PRELUDE_FILE).read()
 
 
+def _int_lit(v):
+    v &= (1 << 64) - 1
+    return "(long)0x%xUL" % v
+
+
+def _ld_lit(v):
+    if isinstance(v, str):
+        return {"inf": "__builtin_infl()", "-inf": "(-__builtin_infl())", "nan": '__builtin_nanl("")',
+                "-nan": '(-__builtin_nanl(""))', "-0": "(-0.0L)"}[v]
+    # exact: every grid value is an integer or a dyadic rational with at most 64 significant bits
+    return "(%d.0L / %d.0L)" % (v.numerator, v.denominator)
+
+
 def build_sources(cases):
     """cases: list of (key, build).  -> unit text, driver text, function table [(key, [(fname, ret_ld)])]"""
     unit = [unit_prelude()]
@@ -883,11 +1076,14 @@ def build_sources(cases):
         src, fns = build(str(k))
         unit.append(src)
         table.append((key, fns))
-    drv = ["struct vp_case { int (*cc)(void); int (*ref)(void); };\n"]
+    drv = ["struct vp_case { int (*cc)(void); int (*ref)(void); int grid; };\n"]
     for k in range(len(cases)):
         drv.append("int cc_c%d(void), ref_c%d(void);\n" % (k, k))
-    drv.append("struct vp_case vp_cases[] = {\n" + "".join("{cc_c%d, ref_c%d},\n" % (k, k) for k in range(len(cases))) + "};\n")
+    drv.append("struct vp_case vp_cases[] = {\n" + "".join("{cc_c%d, ref_c%d, %d},\n" % (k, k, conv_grid_kind(cases[k][0]))
+                                                           for k in range(len(cases))) + "};\n")
     drv.append("int vp_ncases = %d;\n" % len(cases))
+    drv.append("const long vp_igrid[] = {%s};\nconst int vp_ni = %d;\n" % (", ".join(_int_lit(v) for v in IGRID), len(IGRID)))
+    drv.append("const long double vp_fgrid[] = {%s};\nconst int vp_nf = %d;\n" % (", ".join(_ld_lit(v) for v in FGRID), len(FGRID)))
     return "".join(unit), "".join(drv), table
 
 
@@ -904,6 +1100,56 @@ def parse_record(line):
         loops.append({"pcount": int(g[0]), "drift": int(g[1]), "dmin": int(g[2]), "dmax": int(g[3]), "x87first": int(g[4]),
                       "x87max": int(g[5]), "x87": int(g[6]), "gna": int(g[7])})
     return idx, groups, loops
+
+
+def parse_vrecord(line):
+    """V idx n | x87 top ldok equal rspd pmax | ... (one group per operand value)"""
+    try:
+        parts = [p.split() for p in line.split("|")]
+        idx, n = int(parts[0][1]), int(parts[0][2])
+        vals = [{"x87": int(g[0]), "top": int(g[1]), "ldok": int(g[2]), "eq": int(g[3]), "rspd": int(g[4]), "pmax": int(g[5])}
+                for g in parts[1:]]
+        if len(vals) != n:
+            return None
+        return idx, vals
+    except (ValueError, IndexError):
+        return None
+
+
+def value_tokens(key, vals):
+    """anomaly tokens of a conversion case measured once per operand value: `<anomaly>@<value classes showing it>`;
+    `(ub-operand)` marks anomalies seen only for operands whose conversion C11 leaves undefined.
+    -> (tokens, values executed, values whose result is not compared: undefined / implementation-defined conversion)"""
+    f, t = key.split("/")[2].split(">")
+    n = len(FGRID) if CONV_BY[f][2] is None else len(IGRID)
+    if vals is None or len(vals) != n:
+        return ["no-record-for-the-value-grid"], 0, 0
+    seen = {}
+    unjudged = 0
+    for j, m in enumerate(vals):
+        v = grid_value(f, j)
+        defined = conv_defined(f, t, v)
+        unjudged += 0 if defined else 1
+        an = []
+        if m["x87"]:
+            an.append("x87-per-call=%+d" % m["x87"])
+        elif m["top"]:
+            an.append("x87-top-moved=%+d" % m["top"])
+        elif not m["ldok"]:
+            an.append("later-long-double-corrupted")
+        if m["rspd"]:
+            an.append("rsp-across-call")
+        if m["pmax"]:
+            an.append("x87-at-statement-boundary")
+        if defined and not m["eq"]:
+            an.append("result-differs-from-gcc-twin")
+        for a in an:
+            seen.setdefault(a, []).append((value_class(v), defined))
+    toks = []
+    for a, lst in seen.items():
+        cls = [c for c in VAL_CLASSES if any(c == x for x, d in lst)]
+        toks.append("%s@%s%s" % (a, "+".join(cls), "" if any(d for x, d in lst) else "(ub-operand)"))
+    return sorted(toks), n, unjudged
 
 
 def dynamic_tokens(groups, loops, is_alloca):
@@ -1086,6 +1332,12 @@ def _run_cases(chibicc, wd, name, cases, rt_objs, depth=0):
                 recs[idx] = (groups, loops)
             except (ValueError, IndexError):
                 pass
+    vrecs = {}
+    for line in r["stdout"].split("\n"):
+        if line.startswith("V "):
+            v = parse_vrecord(line)
+            if v:
+                vrecs[v[0]] = v[1]
     crashed = {}
     if len(recs) < len(cases):
         exe = os.path.join(wd, name + ".exe")
@@ -1099,11 +1351,15 @@ def _run_cases(chibicc, wd, name, cases, rt_objs, depth=0):
                     idx, groups, loops = parse_record(line)
                     recs[idx] = (groups, loops)
                     got = True
+                elif line.startswith("V "):
+                    v = parse_vrecord(line)
+                    if v:
+                        vrecs[v[0]] = v[1]
             if not got:
                 crashed[k] = st
     for k, (key, fns) in enumerate(table):
         res = {"static": [], "unmodelled": [], "states": 0, "transitions": 0, "pred_x87": 0, "alloca_sites": 0, "fns": len(fns),
-               "loops": 0}
+               "loops": 0, "values": 0, "values_unjudged": 0, "local_labels": 0}
         pred_ok = True
         for fn, ld in fns:
             m = models.get("cc_" + fn)
@@ -1115,6 +1371,7 @@ def _run_cases(chibicc, wd, name, cases, rt_objs, depth=0):
             res["transitions"] += m.transitions
             res["alloca_sites"] += m.alloca_sites
             res["loops"] += 1 if m.has_backedge else 0
+            res["local_labels"] += 1 if m.local_labels else 0
             if m.unmodelled:
                 res["unmodelled"].append(m.unmodelled)
                 pred_ok = False
@@ -1135,6 +1392,11 @@ def _run_cases(chibicc, wd, name, cases, rt_objs, depth=0):
             res["dynamic"] = dynamic_tokens(groups, loops, key.startswith("alloca/"))
             res["measured"] = {"x87_n1": [groups[0]["x87"], groups[3]["x87"]], "x87_n9": [groups[2]["x87"], groups[5]["x87"]],
                                "ldok": [g["ldok"] for g in groups], "drift1000": loops[1]["drift"], "x87max_loop": loops[1]["x87max"]}
+            if conv_grid_kind(key):
+                toks, nvals, unjudged = value_tokens(key, vrecs.get(k))
+                res["dynamic"] = sorted(set(res["dynamic"]) | set(toks))
+                res["values"], res["values_unjudged"] = nvals, unjudged
+                res["measured"]["x87_per_value"] = [v["x87"] for v in vrecs.get(k, [])]
         else:
             res["dynamic"] = ["no-record"]
             res["measured"] = None
@@ -1153,7 +1415,7 @@ def _run_cases(chibicc, wd, name, cases, rt_objs, depth=0):
                 res["mismatch"] = True
         if not res["static"] and not res["dynamic"] and not res["unmodelled"] and res["validated"] and not res["ldbad"] and k >= 2:
             # clean, validated case: compact record (states, transitions, functions, functions with loops, alloca sites)
-            res = (res["states"], res["transitions"], res["fns"], res["loops"], res["alloca_sites"])
+            res = (res["states"], res["transitions"], res["fns"], res["loops"], res["alloca_sites"], res["values"], res["values_unjudged"], res["local_labels"])
         out["results"][key] = res
     return out
 
@@ -1190,6 +1452,9 @@ def root_causes(case, res, results):
         return [(("jump-out-of-stmtexpr|%s" % kind) if kind != "none" else "stmtexpr-without-jump|%s|%s" % (desc, T), ",".join(cls))]
     if ctx == "alloca":
         return [("%s|%s" % (ctx, desc), ",".join(own))]
+    if ctx == "conv":
+        # one class per (source type, target type): the conversion sequence is the same in every consumption context
+        return [("conv=%s" % desc, ",".join(own))]
 
     def dev_of(cid):
         r = results.get(cid)
@@ -1208,7 +1473,7 @@ def root_causes(case, res, results):
         if st is None:
             continue
         # the form itself with plain operands (its "skeleton"), then the sub-expression as it stands
-        for shape in (skeleton(sub), sub):
+        for shape in (skeleton(sub), skeleton2(sub), sub):
             if shape == desc and ctx == ("init" if st != "v" else "exprstmt"):
                 continue
             d = dev_of("init/%s/%s" % (st, shape)) if st != "v" else dev_of("exprstmt/v/%s" % shape)
@@ -1228,7 +1493,7 @@ def root_causes(case, res, results):
     if rest and not causes:
         if desc in ("v", "c"):
             causes.append(("ctx=%s|ty=%s" % (ctx, T), ",".join(own)))
-        elif ctx == "init":
+        elif ctx == ("init" if T != "v" else "exprstmt"):
             causes.append(("form=%s" % desc, ",".join(own)))
         else:
             causes.append(("ctx=%s|form=%s" % (ctx, desc), ",".join(rest)))
@@ -1250,6 +1515,34 @@ def skeleton(sub):
         elif ch == "," and depth == 0:
             n += 1
     return sub[:i] + "(" + ",".join(["v"] * n) + ")"
+
+
+def split_args(sub):
+    """head(a,b,..) -> (head, [a, b, ..]); a leaf -> (leaf, [])"""
+    i = sub.find("(")
+    if i < 0:
+        return sub, []
+    args, depth, cur = [], 0, ""
+    for ch in sub[i + 1:-1]:
+        if ch == "(":
+            depth += 1
+        elif ch == ")":
+            depth -= 1
+        if ch == "," and depth == 0:
+            args.append(cur)
+            cur = ""
+        else:
+            cur += ch
+    args.append(cur)
+    return sub[:i], args
+
+
+def skeleton2(sub):
+    """the top-level form with the skeletons of its operands: member.Sa(comma.e>S(neg.e(v),v)) -> member.Sa(comma.e>S(v,v))"""
+    head, args = split_args(sub)
+    if not args:
+        return sub
+    return head + "(" + ",".join(skeleton(a) for a in args) + ")"
 
 
 def subexprs(desc):
@@ -1290,6 +1583,8 @@ def desc_type(d):
         return {"b": "i", "c": "i"}.get(t.split(">")[1], t.split(">")[1])
     if name in ("ptrdiff",):
         return "l"
+    if name == "condmix":
+        return "v"
     if name == "member":
         return {"Sa": "l", "La": "l", "Sb": "i"}.get(t)
     if name in ("padd", "psub", "addr"):
@@ -1352,9 +1647,48 @@ def build_rt(wd):
     return objs
 
 
+STMTEXPR_MEMBER_PROBE = "int FN(c0)(void) { int k; for (k = 0; k < gn; k++) { P; rl = (({ gs[2]; }).a); ri = (({ gL[2]; }).a[1]) != 0; } return k; }\n"
+
+
+def probe_stmtexpr_member(ctx):
+    """Capability probe: does this chibicc accept `.member` on a statement expression (gcc does)?  The pinned tree rejects
+    it in the code generator ("not an lvalue"); then the family is reported once and left out of the enumeration."""
+    wd = ctx.mkdir("cap")
+    u = os.path.join(wd, "cap_u.c")
+    with open(u, "w") as f:
+        f.write(twin.PRELUDE + unit_prelude() + STMTEXPR_MEMBER_PROBE)
+    ok, err = twin.ref_compile(u, os.path.join(wd, "cap_ref.o"), ["-DPFX=ref_"], cwd=wd)
+    if not ok:
+        raise core.HarnessError("gcc rejects the statement-expression member probe: " + err[-500:])
+    ok, stage, st, err = twin.cc_compile(_Shim(ctx.chibicc), u, os.path.join(wd, "cap_cc.o"), ["-DPFX=cc_"], cwd=wd)
+    if not ok:
+        ctx.violation("C20|member-of-stmtexpr|cc-fail(%s,%s)" % (stage, st),
+                      "chibicc %s fails (status %s) on member access on a struct-valued statement expression `({ s; }).m` "
+                      "(valid GNU C, accepted by gcc): %s" % (stage, st, err[-200:]),
+                      files={"case.c": STMTEXPR_MEMBER_PROBE, "c20_unit.h": unit_prelude(),
+                             "case.json": json.dumps({"id": "cap/member-of-stmtexpr", "fns": [["c0", False]], "expect": "cc-fail"})},
+                      replay=REPLAY_SH)
+    return ok
+
+
+def check_grids():
+    """vacuity guard: the operand grids put values on both sides of every class boundary, for every source type"""
+    for f, fty, fw, fs in CONV_TYPES:
+        n = len(FGRID) if fw is None else len(IGRID)
+        cls = set(value_class(grid_value(f, j)) for j in range(n))
+        want = set(VAL_CLASSES) if fw is None else {"lt2^31"} | ({"neg"} if fs else set()) | \
+            ({"ge2^31"} if fw >= 32 and not (fw == 32 and fs) else set()) | ({"ge2^32"} if fw == 64 else set()) | \
+            ({"ge2^63"} if fw == 64 and not fs else set())
+        if not want <= cls:
+            raise core.HarnessError("operand grid of %s lacks the value classes %s" % (fty, sorted(want - cls)))
+
+
 def run(ctx):
     global CASES_BY_KEY
-    cases = enumerate_cases(ctx.tier)
+    check_grids()
+    cap = probe_stmtexpr_member(ctx)
+    ctx.cover(member_of_statement_expression_enumerated="yes" if cap else "no (rejected by this chibicc)")
+    cases = enumerate_cases(ctx.tier, cap)
     CASES_BY_KEY = {c["id"]: c for c in cases}
     if len(CASES_BY_KEY) != len(cases):
         raise core.HarnessError("duplicate case ids")
@@ -1368,6 +1702,8 @@ def run(ctx):
     # shard: interleave so that every batch has a similar mix; VERIF_SEED only rotates the assignment
     nb = max(1, (len(keys) + BATCH - 1) // BATCH)
     nb = max(nb, min(core.NPROC, (len(keys) + 199) // 200))
+    if nb > core.NPROC:
+        nb = (nb + core.NPROC - 1) // core.NPROC * core.NPROC       # whole rounds of the process pool
     batches = [[] for _ in range(nb)]
     for i, k in enumerate(keys):
         batches[(i + ctx.seed) % nb].append(k)
@@ -1378,7 +1714,7 @@ def run(ctx):
     done_batches = 0
     callees = {}
     # run in waves so that the deadline can stop the enumeration between waves
-    wave = core.NPROC * 2
+    wave = len(args) if len(args) <= core.NPROC * 4 else core.NPROC * 2
     for w in range(0, len(args), wave):
         if ctx.out_of_time(reserve=60):
             ctx.incomplete("deadline: %d of %d batches (%d cases) finished" % (done_batches, len(args), len(results)))
@@ -1420,9 +1756,10 @@ def judge(ctx, cases, results, ref_rejected, cc_fail, callees):
     ld_corrupt = 0
     loops = 0
     alloca_sites = 0
+    conv_values = conv_unjudged = local_labels = 0
     for key, stage, code, err in cc_fail:
         c = by_id[key]
-        ctx.violation("C20|%s|%s|cc-fail(%s,%s)" % (c["ctx"], c["desc"] if c["ctx"] in ("jump", "alloca") else "form=" + c["desc"], stage, code),
+        ctx.violation("C20|%s|%s|cc-fail(%s,%s)" % (c["ctx"], c["desc"] if c["ctx"] in ("jump", "alloca", "conv") else "form=" + c["desc"], stage, code),
                       "chibicc %s fails (status %s) on a valid generated function %s: %s" % (stage, code, key, err[-200:]),
                       files={"case.c": c["build"]("0")[0], "case.json": json.dumps({"id": key, "fns": c["build"]("0")[1], "expect": "cc-fail"})},
                       replay=REPLAY_SH)
@@ -1439,6 +1776,9 @@ def judge(ctx, cases, results, ref_rejected, cc_fail, callees):
             fns += r[2]
             loops += r[3]
             alloca_sites += r[4]
+            conv_values += r[5]
+            conv_unjudged += r[6]
+            local_labels += r[7]
             continue
         if "skip" in r:
             continue
@@ -1448,6 +1788,9 @@ def judge(ctx, cases, results, ref_rejected, cc_fail, callees):
         fns += r["fns"]
         loops += r["loops"]
         alloca_sites += r["alloca_sites"]
+        conv_values += r.get("values", 0)
+        conv_unjudged += r.get("values_unjudged", 0)
+        local_labels += r.get("local_labels", 0)
         if r["unmodelled"]:
             unmodelled += 1
             for w in r["unmodelled"]:
@@ -1497,7 +1840,11 @@ def judge(ctx, cases, results, ref_rejected, cc_fail, callees):
               model_vs_machine_disagreements=pred_mismatch, clean_cases=clean, anomalous_static_and_dynamic=both,
               anomalous_static_only=static_only, anomalous_dynamic_only=dynamic_only, later_long_double_corrupted_cases=ld_corrupt,
               ref_rejected=ref_rejected, cc_fail=len(cc_fail), alloca_idiom_sites=alloca_sites, cases_by_context=by_ctx,
-              cases_by_size=by_size, executions_per_case="N=1,2,9 calls x gc=0,1 (loop count 1) + loop counts 1 and 1000",
+              cases_by_size=by_size, conversion_cases=by_ctx.get("conv", 0), conversion_operand_values_executed=conv_values,
+              conversion_values_result_unjudged_undefined_or_impl_defined=conv_unjudged,
+              conversion_value_grids={"integer": len(IGRID), "floating": len(FGRID)},
+              functions_with_jumps_to_local_numeric_labels=local_labels, executions_per_case="N=1,2,9 calls x gc=0,1 (loop count 1) + loop counts 1 and 1000; conversion cases additionally one "
+              "call per operand value of the grid",
               rule=RULE[ctx.tier])
     nsamp = 0
     for c in cases:
@@ -1521,12 +1868,22 @@ RULE = {
              "pointer arithmetic, calls of every return class with 0/1/2 register arguments and 1/2/3/6 stack argument words, "
              "statement expressions) of size 0..1 composite nodes x result type {int,long,float,double,long double,int*,16-byte "
              "struct (registers),24-byte struct (memory),void} x 14 consumption contexts {expression statement, for-increment, "
-             "comma lhs, call argument, left/right operand, initializer, if/while/do/for condition, ?: condition, switch, return}; "
-             "every size-2 composition in the contexts initializer and expression statement; every jump kind "
-             "{break,continue,goto,goto*,return,none} out of a statement expression x 13 pending-temporary shapes x 6 types; "
-             "6 alloca/VLA idioms.  Right operands of / % << >> are read-only leaves; one lvalue object per composite node.",
+             "comma lhs, call argument, left/right operand (left operand of a struct = `.member` applied to it), initializer, "
+             "if/while/do/for condition, ?: condition, switch, return}; every size-2 composition in the contexts initializer and "
+             "expression statement.  Dropped / tested operands of every type: comma with a left operand of each of the 8 types and "
+             "void, ?: with the int flag and with a condition operand of each of the 6 scalar types (both truth values executed), ?: "
+             "with exactly one void arm and the other arm of each of the 8 types, void leaf (void)0; `.member` on struct-valued "
+             "comma / ?: / assignment / call (lvalue context) and, when the compiler accepts it, on statement expressions.  "
+             "Conversions: 156 ordered pairs of the 13 arithmetic types x 3 contexts, each executed on the whole operand value grid "
+             "of its source type (28 integer / 39 floating values: both sides of 0, 2^7, 2^8, 2^15, 2^16, 2^31, 2^32, 2^63, 2^64, "
+             "negative, +-inf, +-NaN), x87 tag word / TOP / %rsp read after every value; the model follows jumps to local numeric "
+             "labels inside `;`-joined instruction strings.  Every jump kind {break,continue,goto,goto*,return,none} out of a "
+             "statement expression x 13 pending-temporary shapes x 6 types; 6 alloca/VLA idioms.  Right operands of / % << >> are "
+             "read-only leaves; one lvalue object per composite node.",
     "thorough": "as quick, with every size-2 composition in all 14 contexts and every size-3 composition in the context initializer "
-                "(size-3 parents restricted to one representative per code path: + among arithmetic and op=, < among comparisons).",
+                "(size-3 parents restricted to one representative per code path: + among arithmetic and op=, < among comparisons; "
+                "inside size-3 trees the dropped comma operand is int or long double, the typed ?: condition and the non-void arm "
+                "of a one-void-arm ?: are long double).",
 }
 
 
